@@ -572,7 +572,7 @@ def rnd_call(rng, wshape, maxs, maxos):
 
 def generate(rng, tier):
     quick = tier == 'quick'
-    n_cases = 90 if quick else 1500
+    n_cases = 120 if quick else 2500
     maxn = 6 if quick else 8
     maxs = 5 if quick else 8
     Lmax = 64 if quick else 160
